@@ -72,7 +72,7 @@ CLAIMED = {
         technique="Coq proof (string-level cf_safe_name lemmas, save loop = specification walk) + translator + correspondence",
     ),
     "C20": dict(
-        text="Coq theorems: for ANY value type, every prior stack and every expression tree, evaluating after the expression's postfix code was pushed returns its ordinary arithmetic value and leaves the prior stack unread (induction on the tree, generalised over the stack) — hence independence from every history of earlier, failed or rejected evaluations; the recursive-descent model of the grammar parses both the fully and the minimally parenthesised printing of every tree to exactly that code (precedence, left associativity, unary minus); the validator accepts exactly token lists over numbers and the tables read from the source. Tied by running histories on the real never-reset exprStack (value, pushed symbols, untouched prefix) and the real QcVariableConfig; create_config is exercised on synthetic NetCDF-3 grids (two known findings F16, F17). Partial: pyparsing, float(), xarray and CubicSpline are modelled / only exercised.",
+        text="Coq theorems: for ANY value type, every prior stack and every expression tree, evaluating after the expression's postfix code was pushed returns its ordinary arithmetic value and leaves the prior stack unread (induction on the tree, generalised over the stack) — hence independence from every history of earlier, failed or rejected evaluations; the recursive-descent model of the grammar parses both the fully and the minimally parenthesised printing of every tree to exactly that code (precedence, left associativity, unary minus); the validator accepts exactly token lists over numbers and the tables read from the source. Tied by running histories on the real never-reset exprStack (value, pushed symbols, untouched prefix) and the real QcVariableConfig; create_config is exercised on synthetic NetCDF-3 grids (F16 - zero-sum selection padded - and F17 - file not starting in January - were found there and repaired). Partial: pyparsing, float(), xarray and CubicSpline are modelled / only exercised.",
         design_ref="DESIGN.md §8 C20",
         technique="Coq proof (compile/evaluate correctness for every prior stack; parser round-trip) + history correspondence",
     ),
